@@ -1355,10 +1355,17 @@ fn mux_sweep<'a, B: SddBuilder<'a>>(b: &'a B, cfg: &SCfg) -> Report {
         match r {
             Err(p) => rep.violation(format!("{}:panic", pf), format!("{} [{}] panicked: {}", what, cfg.json(), p), case),
             Ok(r) => {
-                for a in 0..256u64 {
-                    if sdd_eval(r, a) != want(a) {
-                        rep.violation(format!("{}:wrong-function", pf), format!("{} [{}]: the result is {} under assignment {:#010b}, the definition gives {}", what, cfg.json(), sdd_eval(r, a), a, want(a)), case);
-                        break;
+                // memoised reader (one 256-bit table per node): a walk per assignment without a memo is
+                // exponential in the depth of a diagram with shared nodes
+                match crate::bigtt::sdd_big(r, 8, &|l| Some(l)) {
+                    Err(e) => rep.violation(format!("{}:wrong-function", pf), format!("{} [{}]: {}", what, cfg.json(), e), case),
+                    Ok(t) => {
+                        for a in 0..256u64 {
+                            if t.eval(a as usize) != want(a) {
+                                rep.violation(format!("{}:wrong-function", pf), format!("{} [{}]: the result is {} under assignment {:#010b}, the definition gives {}", what, cfg.json(), t.eval(a as usize), a, want(a)), case);
+                                break;
+                            }
+                        }
                     }
                 }
             }
